@@ -259,7 +259,7 @@ def run(prop, tier, seed, replay=None):
             subprocess.run([VICTIM, "prep", b, pre], check=True, timeout=120, stdout=subprocess.DEVNULL)
             bases[pre] = b
 
-        tlc_events, tasks, infos = [], [], {}
+        tlc_events, tasks, infos, nominal_bad = [], [], {}, []
         run_no = 0
         for pre, op, arg in pairs:
             run_no += 1
@@ -278,8 +278,16 @@ def run(prop, tier, seed, replay=None):
             _, calls = parse_strace(tr, dN)
             evs = abstract(calls, dN, rid)
             after = run_check(dN)
-            if before["open"] != "ok" or after["open"] != "ok":
-                raise HarnessError("pre/after state of %s cannot be opened: %s / %s" % (rid, before["open"], after["open"]))
+            if before["open"] != "ok":
+                raise HarnessError("the state %s starts from cannot be opened: %s" % (rid, before["open"]))
+            if after["open"] != "ok":
+                if res["res"] != "ok":
+                    raise HarnessError("state after the (failed) nominal run of %s cannot be opened: %s" % (rid, after["open"]))
+                # no fault at all: the operation reported success and left a directory that the
+                # real code cannot reopen -- "once an operation has returned success its effect is
+                # durable" fails in the plainest way
+                nominal_bad.append(dict(pre=pre, op=op, arg=arg, reopened=after["open"], before_chain=before["chain"]))
+                continue
             infos[rid] = dict(pre=pre, op=op, arg=arg, before=before, after=after, events=evs, nominal=res["res"])
             tlc_events.append(dict(ev="init", run=rid, k=0, files=listing(bases[pre]),
                                    before=[rawfs_real(x) for x in chain_heads(before)],
@@ -288,6 +296,8 @@ def run(prop, tier, seed, replay=None):
             tlc_events.append(dict(ev="result", run=rid, k=len(evs) + 1, res=res["res"], injected=False))
             muts = [e for e in evs if e["sys"] in MUTATING]
             if only is not None:
+                if only["kind"] == "nominal":
+                    continue
                 if only["kind"] == "kill":
                     tasks.append(("kill", rid, only["boundary"], None))
                 else:
@@ -354,6 +364,15 @@ def run(prop, tier, seed, replay=None):
         model_recs = {(r["run"], r["k"]): r["rec"] for r in result["recs"]}
 
         violations, known, drift = [], [], []
+        for nb in nominal_bad:
+            sig = dict(rule=["Reopen"], site=nb["op"], context="no fault: success reported, directory cannot be reopened", errno="")
+            rec = dict(property=prop, signature=sig, pre=nb["pre"], op=nb["op"], arg=nb["arg"], kind="nominal", boundary=0,
+                       errno=None, reopened=dict(open=nb["reopened"], chain=[]), before_chain=nb["before_chain"])
+            k = match_known(prop, sig)
+            if k:
+                known.append((k, rec))
+            else:
+                violations.append((save_replay(prop, "%s-nominal-%s" % (tier, fingerprint([nb["pre"], nb["op"]])), rec), rec))
         model_fail = {(f["run"], f["k"], f["rule"]) for f in result["failed"]}
         for o in outcomes:
             info = infos[o["rid"]]
